@@ -1,0 +1,25 @@
+//go:build verif
+
+package s2
+
+import "github.com/golang/geo/s1"
+
+// Thin wrappers exporting the unexported edge-distance functions of edge_distances.go
+// to the verification harness (property C17). Add-only; no behaviour of the package changes.
+
+func VerifC17InteriorDist(x, a, b Point, minDist s1.ChordAngle, alwaysUpdate bool) (s1.ChordAngle, bool) {
+	return interiorDist(x, a, b, minDist, alwaysUpdate)
+}
+func VerifC17UpdateMinDistance(x, a, b Point, minDist s1.ChordAngle, alwaysUpdate bool) (s1.ChordAngle, bool) {
+	return updateMinDistance(x, a, b, minDist, alwaysUpdate)
+}
+func VerifC17MinUpdateDistanceMaxError(d s1.ChordAngle) float64 { return minUpdateDistanceMaxError(d) }
+func VerifC17MinUpdateInteriorDistanceMaxError(d s1.ChordAngle) float64 {
+	return minUpdateInteriorDistanceMaxError(d)
+}
+func VerifC17UpdateEdgePairMinDistance(a0, a1, b0, b1 Point, minDist s1.ChordAngle) (s1.ChordAngle, bool) {
+	return updateEdgePairMinDistance(a0, a1, b0, b1, minDist)
+}
+func VerifC17UpdateEdgePairMaxDistance(a0, a1, b0, b1 Point, maxDist s1.ChordAngle) (s1.ChordAngle, bool) {
+	return updateEdgePairMaxDistance(a0, a1, b0, b1, maxDist)
+}
